@@ -578,16 +578,18 @@ var supportedOps = map[string]bool{"MOVQ": true, "MOVL": true, "XCHGL": true, "X
 	"LOCK": true, "CMPXCHGL": true, "MFENCE": true, "NOP": true}
 
 type CPU struct {
-	pc   int
-	regs map[string]uint64
-	zf   bool
+	pc    int
+	regs  map[string]uint64
+	zf    bool
+	phase uint64 // 1 while an un-LOCKed read-modify-write is between its load and its store
 }
 
 func (c *CPU) key() uint64 {
 	k := uint64(c.pc)
-	for _, r := range []string{"AX", "BX", "CX", "DX"} {
+	for _, r := range []string{"AX", "BX", "CX", "DX", "SI", "DI", "R8", "R9", "R10", "R11", "R12", "R13", "R14", "R15", "BP"} {
 		k = k*1000003 + c.regs[r]
 	}
+	k = k*1000003 + c.phase
 	if c.zf {
 		k ^= 1 << 63
 	}
@@ -726,10 +728,16 @@ func (p *Program) Run(frame []byte, globals map[string]uintptr) {
 				if lockPrefix {
 					SyncOp(addrOf(it.a[1]))
 				} else {
-					Access(addrOf(it.a[1]), true)
+					RelaxedRead(addrOf(it.a[1]))
 				}
 			}
 			a, b := load(it.a[0], n), load(it.a[1], n)
+			if shared(it.a[1]) && !lockPrefix {
+				c.phase = 1
+				Step(c.key()) // un-LOCKed read-modify-write: the store is a separate step
+				c.phase = 0
+				PlainLockWordWrite(addrOf(it.a[1]))
+			}
 			var v uint64
 			switch it.op {
 			case "ADDL":
@@ -749,20 +757,35 @@ func (p *Program) Run(frame []byte, globals map[string]uintptr) {
 			store(it.a[1], n, v)
 			c.zf = v == 0
 		case "CMPXCHGL":
-			// CMPXCHGL src, mem: if AX == mem { mem = src; ZF=1 } else { AX = mem; ZF=0 }
+			// CMPXCHGL src, mem: if AX == mem { mem = src; ZF=1 } else { AX = mem; mem = mem; ZF=0 }
 			src, m := it.a[0], it.a[1]
 			if lockPrefix {
 				SyncOp(addrOf(m))
+				cur := load(m, 4)
+				if uint32(c.regs["AX"]) == uint32(cur) {
+					store(m, 4, load(src, 4))
+					c.zf = true
+				} else {
+					c.regs["AX"] = cur
+					c.zf = false
+				}
 			} else {
-				Access(addrOf(m), true)
-			}
-			cur := load(m, 4)
-			if uint32(c.regs["AX"]) == uint32(cur) {
-				store(m, 4, load(src, 4))
-				c.zf = true
-			} else {
-				c.regs["AX"] = cur
-				c.zf = false
+				// Without LOCK the load and the store of a read-modify-write are separate bus operations:
+				// another core can get in between. (The destination is always written back.)
+				RelaxedRead(addrOf(m))
+				cur := load(m, 4)
+				c.phase = 1
+				Step(c.key())
+				c.phase = 0
+				PlainLockWordWrite(addrOf(m))
+				if uint32(c.regs["AX"]) == uint32(cur) {
+					store(m, 4, load(src, 4))
+					c.zf = true
+				} else {
+					store(m, 4, cur)
+					c.regs["AX"] = cur
+					c.zf = false
+				}
 			}
 		case "LOCK":
 			lockNext = true
